@@ -158,6 +158,12 @@ def run(prop, tier, seed):
                         if kind in ("gen", "att", "prop"):
                             n += 1
                             ops.append(dict(base, id="o%d" % n, keyof=wallet + "/" + acct, noname=True, epoch=10 * n))
+                        if kind in ("lockwallet", "unlockwallet"):
+                            # the wallet named with a trailing account component: the wallet that is resolved (and would be locked /
+                            # unlocked) is the same, so the decision must be the wallet-level one
+                            for extra in ACCTS:
+                                n += 1
+                                ops.append(dict(base, id="o%d" % n, wraw=wallet + "/" + extra, epoch=10 * n))
                         if kind == "gen":
                             # both supplied, pointing at different accounts: every (named account, keyed account) pair
                             for ow in WALLETS:
@@ -225,8 +231,14 @@ def run(prop, tier, seed):
                                   dict(kind="service", scenario=sc[0] if sc else None, cfg=cfgs.get(sid), op=lines[pos - 2] if pos >= 2 else None, invariant=r.violated))
             else:
                 raise Inconclusive("PermTrace validation failed: %s %s" % (r.violated, r.error))
+        # lock / unlock / create / sign sequences from LockState.tla (incl. restarts): a refused operation changes no lock state
+        import lockfamily
+        info.setdefault("model_runs", [])
+        lock = lockfamily.phase(tier, seed, wd, info, verdict, prop)
+        if lock["drift_count"]:
+            print("DRIFT: lock-state runs differ from LockState.tla in %d place(s); first: %s" % (lock["drift_count"], lock["drift"][0]))
         rc = verdict.finish()
-        cov = dict(states=info["states"], transitions=info["transitions"], traces_validated_against_impl=len(index) + len(cases),
+        cov = dict(states=info["states"], transitions=info["transitions"], traces_validated_against_impl=len(index) + len(cases), lock_state=lock,
                    samples=[dict(kind="checker-row", case=cases[0], expected=expect[cases[0]["id"]][0]), dict(kind="service-ops", lines=lines[:6])],
                    table_rows=dict(tables["counts"]), checker_rows_replayed=nrows, service_configurations=len(scenarios), service_operations=nops,
                    service_operations_served=nserved, drift=drift[:10], drift_count=len(drift), exhaustive=True,
@@ -268,7 +280,7 @@ def run_c18(tier, seed):
             tw, ta = rnd.choice(list(popnames)), rnd.choice(["acc", "Acc1"])
             ents = concretise(row["entries"], tables, rnd, wallet=tw, account=ta, op="Access account")
             # always allow creation somewhere so that the dynamic part is exercised
-            ents.append(dict(w="any", a="w", ops=["Create account"], wre=".*", are="W"))
+            ents.append(dict(w="any", a="any", ops=["Create account"], wre=".*", are=".*"))
             if ci % 3 == 0:
                 ents.append(dict(w="star", a="any", ops=["Access account"], wre="Wallet.*", are=".*"))
             perms = [dict(path=path_of(e["wre"], e["are"]), ops=e["ops"]) for e in ents]
@@ -287,9 +299,16 @@ def run_c18(tier, seed):
                 out.append(dict(id="l%d" % n, kind="listpaths", client="zz", wallet="", acct="", paths=["Wallet1", "Wallet2"], pids=["w1", "w2"]))
                 return out
             ops += lists()
-            for w in ("Wallet1", "Wallet2"):
+            # several creations, more than one of them in the same wallet, with listings in between
+            for w, a in (("Wallet1", "W"), ("Wallet2", "W"), ("Wallet10", "W")):
                 n += 1
-                ops.append(dict(id="c%d" % n, kind="create", client="c1", wallet=w, acct="W", epoch=n))
+                ops.append(dict(id="c%d" % n, kind="create", client="c1", wallet=w, acct=a, epoch=n))
+            ops += lists()
+            for w, a in (("Wallet10", "Acc1"), ("Wallet2", "Wallet1"), ("Wallet10", "Wallet1")):
+                n += 1
+                ops.append(dict(id="c%d" % n, kind="create", client="c1", wallet=w, acct=a, epoch=n))
+                n += 1
+                ops.append(dict(id="l%d" % n, kind="listpaths", client="c1", wallet="", acct="", paths=[PATHCAT[p_] for p_ in ("w1", "w2", "w10")], pids=["w1", "w2", "w10"]))
             ops += lists()
             sid = "C18-%d" % ci
             scenarios.append(dict(id=sid, world=dict(world0, perms=[dict(client="c1", perms=perms)]), ops=ops))
@@ -368,6 +387,13 @@ def run_c18(tier, seed):
 
 
 def replay(prop, path):
+    if json.load(open(path))["replay"].get("lock"):
+        import lockfamily
+        return lockfamily.replay(prop, path)
+    return _replay(prop, path)
+
+
+def _replay(prop, path):
     obj = json.load(open(path))["replay"]
     wd = workdir(prop + "-replay")
     try:
